@@ -16,3 +16,26 @@ Theorem C02_lists_hold_the_bad_results : forall w o l ts s,
   rs_us s' = rs_us s ++ flat_map us_names ts.
 Proof. intros w o l ts s. destruct (run_all_counts w o l ts s) as [_ [H1 [H2 [H3 _]]]]. auto. Qed.
 Print Assumptions C02_lists_hold_the_bad_results.
+
+(* ------------------------------------------------------------------------------------------------------------
+   The whole run, for EVERY world, option set (-x, --repeat, -j N), fault script and process layout: the verdict
+   is "failed" exactly when an import failed or some process (the parent or a layer subprocess) recorded a
+   failure or error event (failing/erroring test or subtest, unexpected success, layer setUp/tearDown error,
+   crashed or unreadable subprocess).  Nothing recorded is dropped on the way to the verdict and nothing is
+   invented. *)
+From ZT Require Import LayersFacts RunLedger Chk_World WorldHyps.
+
+Theorem C02_whole_run_verdict : forall w o,
+  wf (lw w) -> (forall t, In t (tests w) -> t_layer t < nlayers (lw w)) ->
+  (r_failed (run w o) = true <->
+   0 < o_import_errors o \/
+   (exists e, In e (r_parent (run w o)) /\ bad_ev e = true) \/
+   (exists c e, In c (r_children (run w o)) /\ In e (c_ev c) /\ bad_ev e = true)).
+Proof. exact run_failed_iff_bad_event. Qed.
+Print Assumptions C02_whole_run_verdict.
+
+(* the hypotheses above are what the correspondence check evaluates on each case (check code bit 4) *)
+Theorem C02_hypotheses_are_checked : forall c, wf_case c = true ->
+  wf (lw (w c)) /\ (forall t, In t (tests (w c)) -> t_layer t < nlayers (lw (w c))).
+Proof. exact wf_case_hyps. Qed.
+Print Assumptions C02_hypotheses_are_checked.
